@@ -51,6 +51,20 @@ theorem read_exact (d : Dev) (devSize start size pss : Nat)
   have := readLoop_spec d devSize start size pss 0 [] hdev hpss (Nat.zero_le _)
   simpa [readContents] using this
 
+/-- every ReadAt that ReadContents issues stays inside the partition, is at most one physical-sector
+    chunk long, and the requests together ask for exactly the partition's size -/
+theorem read_requests_inside (devSize start size pss : Nat)
+    (hdev : start + size ≤ devSize) (hpss : 0 < pss) :
+    (∀ r ∈ readReqs devSize start size pss 0 [], start ≤ r.1 ∧ r.1 + r.2 ≤ start + size ∧ r.2 ≤ pss) ∧
+    ((readReqs devSize start size pss 0 []).map (·.2)).sum = size := by
+  obtain ⟨ext, he, hin, hsum⟩ := readReqs_spec_aux devSize start size pss hdev hpss size 0 [] (by omega) (by omega)
+  rw [he]
+  constructor
+  · intro r hr
+    have := hin r (by simpa using hr)
+    omega
+  · simpa using hsum
+
 /-- CopyPartitionRaw (sequential composition): if the source fits into the target, the target's
     leading bytes equal the source partition, for every chunking the pipe produces. -/
 theorem copy_prefix (d : Dev) (devSize sStart sSize tStart tSize pss : Nat) (chunks : List Bytes)
